@@ -68,7 +68,17 @@ func H19_keepalive() {
 		vrtCheckArmed(c, K, "after_traffic")
 	}
 	wit.peerTake()
-	// now the client falls silent: the armed deadline passes
+	// now the client falls silent - on a packet boundary or in the middle of a packet
+	switch vrtChoice("last_bytes", 3) {
+	case 1:
+		c.peerSend([]byte{0x30}) // only the first byte of the fixed header
+		vrtQuiesce()
+	case 2:
+		c.peerSend([]byte{0x30, 0x05, 0x00}) // a PUBLISH announcing more than is ever sent
+		vrtQuiesce()
+	}
+	vrtAssert("C19.incomplete_packet_keeps_connection", !c.isClosed())
+	// the armed deadline passes
 	dl, _, _, _ := c.armState()
 	vrtClockSet(dl + 1)
 	c.peerExpireDeadline()
